@@ -19,6 +19,24 @@
 (* the unknown-release warning was printed, the underlying allocations     *)
 (* obtained and returned during the call.                                  *)
 (*                                                                         *)
+(* Life cycle (the "cleared (or destroyed)" clause).  A cache object is    *)
+(* constructed and destroyed: `life' is "none" (no cache), "bare" (a       *)
+(* SimpleStringInternalCache owned by somebody who clears it) or "global"  *)
+(* (a GlobalSimpleStringCache: the cache plus its allocator adaptor,       *)
+(* installed as the string allocator of SimpleString over the allocator    *)
+(* that was installed before = the underlying allocator).  `salloc' says   *)
+(* which allocator SimpleString uses: "under" (the previous / underlying   *)
+(* one) or "cache" (the adaptor).  Under a global cache every string       *)
+(* buffer request / release is an Alloc / Dealloc of this module.          *)
+(* Destroying a global cache with buffers still in use (static or longer   *)
+(* lived strings) returns EVERYTHING obtained from the underlying          *)
+(* allocator, exactly once, and restores the previous string allocator.    *)
+(* A bare cache leaves clearing to its owner: its destruction is only      *)
+(* specified after everything was cleared (Destroy is not enabled          *)
+(* otherwise - the property statement does not say who has to clear).      *)
+(* `base' = underlying allocations the cache object holds for itself       *)
+(* (today none: the class table comes from the default malloc allocator).  *)
+(*                                                                         *)
 (* The property leaves open WHICH idle block of the class is reused and    *)
 (* whether one is reused at all: Alloc is nondeterministic there.          *)
 (* AllocImpl is the choice the code makes today (head of the free list,    *)
@@ -39,9 +57,12 @@ VARIABLES free,      \* [ClassMax -> Seq(Block)]  idle blocks, head insertion
           under,     \* ghost: underlying allocations currently held by the cache
           nid,       \* ghost: number the underlying allocator gives to its next allocation
           req,       \* ghost: [mem -> requested size] of the buffers currently handed out
-          last       \* observable outcome of the last call
+          last,      \* observable outcome of the last call
+          life,      \* "none" | "bare" | "global": which cache object exists
+          salloc,    \* "under" | "cache": the string allocator SimpleString uses
+          base       \* ghost: underlying allocations held by the cache object itself (not by a block)
 
-vars == <<free, used, uncached, warned, under, nid, req, last>>
+vars == <<free, used, uncached, warned, under, nid, req, last, life, salloc, base>>
 
 Limit == CHOOSE m \in ClassMax : \A c \in ClassMax : c <= m
 Cached(n) == n <= Limit
@@ -63,10 +84,14 @@ Outcome(op, mem, warn, got, ret) == [op |-> op, mem |-> mem, warn |-> warn, got 
 Init == /\ free = [c \in ClassMax |-> <<>>] /\ used = [c \in ClassMax |-> <<>>] /\ uncached = <<>>
         /\ warned = FALSE /\ under = {} /\ nid = 1 /\ req = <<>>
         /\ last = Outcome("init", 0, FALSE, {}, {})
+        /\ life = "none" /\ salloc = "under" /\ base = {}
+Alive == life # "none"
+LifeSame == UNCHANGED <<life, salloc, base>>
 
 -----------------------------------------------------------------------------
 \* alloc(n) served by a block freshly obtained from the underlying allocator
 AllocNew(n, mem, aux, cap) ==
+    /\ Alive /\ LifeSame
     /\ mem \notin under /\ mem \notin aux /\ aux \cap under = {} /\ mem # 0 /\ 0 \notin aux
     /\ cap >= n /\ (Cached(n) => cap >= ClassOf(n))     \* big enough for every later request of its class
     /\ LET b == Block(mem, aux, cap, ClassOf(n)) IN
@@ -80,6 +105,7 @@ AllocNew(n, mem, aux, cap) ==
 
 \* alloc(n) served by the i-th idle block of the request's own class
 AllocReuse(n, i) ==
+    /\ Alive /\ LifeSame
     /\ Cached(n) /\ i \in 1..Len(free[ClassOf(n)])
     /\ LET c == ClassOf(n)
            b == free[c][i] IN
@@ -102,6 +128,7 @@ AllocImpl(n) == IF Cached(n) /\ free[ClassOf(n)] # <<>> THEN AllocReuse(n, 1)
 
 \* dealloc(p, m) of a handed-out buffer, m in the class the buffer was requested in
 Dealloc(mem, m) ==
+    /\ Alive /\ LifeSame
     /\ mem \in DOMAIN req /\ ClassOf(m) = ClassOf(req[mem])
     /\ IF Cached(m)
        THEN LET c == ClassOf(m)
@@ -122,12 +149,14 @@ Dealloc(mem, m) ==
 
 \* dealloc of a pointer the cache never handed out: warn the first time, change nothing else
 DeallocUnknown ==
+    /\ Alive /\ LifeSame
     /\ warned' = TRUE
     /\ last' = Outcome("dealloc", 0, ~warned, {}, {})
     /\ UNCHANGED <<free, used, uncached, under, nid, req>>
 
 \* clearCache: every idle block goes back to the underlying allocator
 ClearCache ==
+    /\ Alive /\ LifeSame
     /\ free' = [c \in ClassMax |-> <<>>]
     /\ under' = under \ StoreAll(Idle)
     /\ last' = Outcome("clearcache", 0, FALSE, {}, StoreAll(Idle))
@@ -135,13 +164,41 @@ ClearCache ==
 
 \* clearAllIncludingCurrentlyUsedMemory: everything goes back, handed-out buffers included
 ClearAll ==
+    /\ Alive /\ LifeSame
     /\ free' = [c \in ClassMax |-> <<>>] /\ used' = [c \in ClassMax |-> <<>>] /\ uncached' = <<>>
     /\ under' = under \ StoreAll(AllBlocks)
     /\ req' = <<>>
     /\ last' = Outcome("clearall", 0, FALSE, {}, StoreAll(AllBlocks))
     /\ UNCHANGED <<warned, nid>>
 
-Next == \/ \E n \in Sizes : Cardinality(DOMAIN req) < MaxLive /\ Alloc(n)
+\* construction of a cache object of kind k ("bare" | "global"); tbl = what it obtains for itself.
+\* A global cache installs its adaptor as the string allocator (the previous one becomes the underlying allocator).
+Construct(k, tbl) ==
+    /\ life = "none" /\ k \in {"bare", "global"}
+    /\ tbl \cap under = {} /\ 0 \notin tbl
+    /\ life' = k /\ salloc' = IF k = "global" THEN "cache" ELSE salloc
+    /\ base' = tbl /\ under' = under \cup tbl
+    /\ nid' = MaxOf({nid} \cup { x + 1 : x \in tbl })
+    /\ warned' = FALSE
+    /\ last' = Outcome("construct", 0, FALSE, tbl, {})
+    /\ UNCHANGED <<free, used, uncached, req>>
+
+\* destruction: everything the cache obtained goes back to the underlying allocator - idle blocks, blocks still
+\* handed out (their owners outlive the cache), the object's own allocations - and the previous string allocator is
+\* back in place.  A bare cache is only destroyed after its owner cleared it.
+Destroy ==
+    /\ Alive
+    /\ life = "bare" => AllBlocks = {}
+    /\ free' = [c \in ClassMax |-> <<>>] /\ used' = [c \in ClassMax |-> <<>>] /\ uncached' = <<>>
+    /\ under' = under \ (StoreAll(AllBlocks) \cup base)
+    /\ req' = <<>> /\ base' = {} /\ warned' = FALSE
+    /\ life' = "none" /\ salloc' = "under"
+    /\ last' = Outcome("destroy", 0, FALSE, {}, StoreAll(AllBlocks) \cup base)
+    /\ UNCHANGED nid
+
+Next == \/ \E k \in {"bare", "global"} : Construct(k, {})
+        \/ Destroy
+        \/ \E n \in Sizes : Cardinality(DOMAIN req) < MaxLive /\ Alloc(n)
         \/ \E mem \in DOMAIN req, m \in Sizes : Dealloc(mem, m)
         \/ DeallocUnknown
         \/ ClearCache \/ ClearAll
@@ -158,12 +215,13 @@ HandedOut == { p \in Pos : p[1] # "f" }
 
 TypeOK == /\ warned \in BOOLEAN /\ nid \in Nat /\ under \subseteq 1..(nid - 1)
           /\ \A p \in Pos : At(p).mem \in Nat /\ At(p).cap \in Nat /\ At(p).cls \in ClassMax \cup {0}
-          /\ last.op \in {"init", "alloc", "dealloc", "clearcache", "clearall"} /\ last.warn \in BOOLEAN
+          /\ last.op \in {"init", "alloc", "dealloc", "clearcache", "clearall", "construct", "destroy"} /\ last.warn \in BOOLEAN
+          /\ life \in {"none", "bare", "global"} /\ salloc \in {"under", "cache"} /\ base \subseteq under
 
 \* no two blocks the cache holds (idle or handed out) share storage: in particular a buffer handed out
 \* never overlaps another buffer still in use, and an idle block is never at the same time in use
 NoAlias == /\ \A p, q \in Pos : p # q => Store(At(p)) \cap Store(At(q)) = {}
-           /\ \A p \in Pos : At(p).mem \notin At(p).aux
+           /\ \A p \in Pos : At(p).mem \notin At(p).aux /\ Store(At(p)) \cap base = {}
 \* the buffers the callers hold are exactly the blocks on the used / uncached lists
 HandedOutExact == /\ DOMAIN req = { At(p).mem : p \in HandedOut }
                   /\ Cardinality(DOMAIN req) = Cardinality(HandedOut)
@@ -173,10 +231,16 @@ BigEnough == \A p \in HandedOut : req[At(p).mem] <= At(p).cap
 ClassStable == /\ \A p \in Pos : At(p).cls = p[2]
                /\ \A p \in HandedOut : ClassOf(req[At(p).mem]) = p[2]
 \* the cache holds exactly what it obtained from the underlying allocator and has not returned
-UnderExact == under = StoreAll(AllBlocks)
-\* after clearAll everything obtained has been returned; after clearCache only handed-out buffers are held
-AllBackAfterClearAll == last.op = "clearall" => under = {} /\ Pos = {}
-IdleBackAfterClearCache == last.op = "clearcache" => under = StoreAll(InUse) /\ Idle = {}
+UnderExact == under = StoreAll(AllBlocks) \cup base
+\* after clearAll everything obtained for buffers has been returned; after clearCache only handed-out buffers are held
+AllBackAfterClearAll == last.op = "clearall" => under = base /\ Pos = {}
+IdleBackAfterClearCache == last.op = "clearcache" => under = StoreAll(InUse) \cup base /\ Idle = {}
+\* after the cache is destroyed nothing obtained from the underlying allocator is outstanding - whether or not
+\* buffers were still in use - and nobody holds a buffer of it any more
+AllBackAfterDestroy == /\ last.op = "destroy" => life = "none"
+                       /\ life = "none" => under = {} /\ Pos = {} /\ req = <<>> /\ base = {}
+\* SimpleString allocates through the cache exactly while a global cache exists; afterwards the previous allocator is back
+InstalledIffGlobal == (salloc = "cache") <=> (life = "global")
 \* the warning is given at most once (action property) and only by a release
 WarnImpliesWarned == last.warn => warned /\ last.op = "dealloc"
 WarnOnce == [][last'.warn => ~warned]_vars
